@@ -96,10 +96,67 @@ and gsel_of (x : sexp) : gtype =
         | L (A "v" :: L names :: fields) ->
           (List.map (fun n -> b (str n)) names,
            List.map (function
-               | L [A "k"; S k; A uid; t] -> ((b k, n_of_int (int_of_string uid)), gtype_of t)
+               | L (A "k" :: S k :: A uid :: t :: _) -> ((b k, n_of_int (int_of_string uid)), gtype_of t)
                | y -> raise (Sexp_error ("gfield: " ^ print_sexp y))) fields)
         | y -> raise (Sexp_error ("variant: " ^ print_sexp y))) vs)
   | y -> raise (Sexp_error ("gsel: " ^ print_sexp y))
+
+(* untrusted diagnosis for the detail text of an S1 failure: where and why conf_b is false *)
+let rec diagnose (path : string) (t : sexp) (j : json) : string option =
+  let sub t' = diagnose path t' j in
+  match t, j with
+  | L [A "nn"; _], JNull -> Some (path ^ " why=null-at-non-null")
+  | L [A "nn"; t'], _ -> sub t'
+  | _, JNull -> None
+  | L [A "l"; t'], JArr items ->
+    let rec go i = function [] -> None | x :: r -> (match diagnose (path ^ "[" ^ string_of_int i ^ "]") t' x with Some d -> Some d | None -> go (i + 1) r) in
+    go 0 items
+  | L [A "l"; _], _ -> Some (path ^ " why=not-a-list")
+  | L [A "ob"; L (A "sel" :: variants)], JObj members
+  | L (A "sel" :: variants), JObj members ->
+    let keys = List.map (fun (k, _) -> string_of_bytes k) members in
+    (* the variant sharing most keys explains the failure best *)
+    let tnv = (try (match List.assoc (bytes_of_string "__typename") members with JStr s -> Some (string_of_bytes s) | _ -> None) with Not_found -> None) in
+    let score v = (match v with L (A "v" :: L names :: fields) ->
+        let fk = List.filter_map (function L (A "k" :: S k :: _) -> Some k | _ -> None) fields in
+        let common = List.length (List.filter (fun k -> List.mem k keys) fk) in
+        let missing = List.length fk - common and extra = List.length keys - common in
+        let tn_bonus = (match tnv with Some t when List.mem (S t) names -> 1000 | Some _ -> -1000 | None -> 0) in
+        tn_bonus + 4 * common - missing - 2 * extra
+                                | _ -> -100000) in
+    let best = List.fold_left (fun acc v -> match acc with None -> Some v | Some a -> if score v > score a then Some v else acc) None variants in
+    (match best with
+     | Some (L (A "v" :: L names :: fields)) ->
+       let fkeys = List.filter_map (function L (A "k" :: S k :: _) -> Some k | _ -> None) fields in
+       let missing = List.filter_map (function L (A "k" :: S k :: _ :: _ :: rest) when not (List.mem k keys) ->
+           Some (k ^ ":" ^ (match rest with A tag :: _ -> tag | _ -> "?")) | _ -> None) fields in
+       let extra = List.filter (fun k -> not (List.mem k fkeys)) keys in
+       let tname = String.concat "|" (List.map (function S n -> n | _ -> "?") names) in
+       if missing <> [] then Some (path ^ " on=" ^ tname ^ " why=missing-key:" ^ String.concat "," missing)
+       else if extra <> [] then Some (path ^ " on=" ^ tname ^ " why=extra-key:" ^ String.concat "," extra)
+       else if List.length (List.sort_uniq compare keys) <> List.length keys then Some (path ^ " why=duplicate-key")
+       else
+         let rec go = function
+           | [] -> None
+           | L (A "k" :: S k :: _ :: ft :: _) :: r ->
+             (match (try Some (List.assoc (bytes_of_string k) members) with Not_found -> None) with
+              | Some v -> (match diagnose (path ^ "." ^ k) ft v with Some d -> Some d | None -> go r)
+              | None -> go r)
+           | _ :: r -> go r in
+         go fields
+     | _ -> Some (path ^ " why=no-variant"))
+  | L [A "ob"; _], _ | L (A "sel" :: _), _ -> Some (path ^ " why=not-an-object")
+  | L [A "tn"], JStr _ -> None
+  | L [A "tn"], _ -> Some (path ^ " why=typename-kind")
+  | L [A "sc"; A n], _ ->
+    let ok = (match n, j with
+        | "String", JStr _ | "ID", JStr _ | "ID", JNum _ | "Int", JNum _ | "Float", JNum _ | "Boolean", JBool _ -> true
+        | ("String" | "ID" | "Int" | "Float" | "Boolean"), _ -> false
+        | _ -> true) in
+    if ok then None else Some (path ^ " why=scalar-kind:" ^ n)
+  | L (A "en" :: _), JStr _ -> None
+  | L (A "en" :: _), _ -> Some (path ^ " why=enum-kind")
+  | _ -> None
 
 let enums_of (x : sexp) : (n list * (n list * n list) list) list =
   match x with
@@ -155,7 +212,8 @@ let handle (x : sexp) : (string * string) list =
         | L (A "run" :: S label :: _raw :: rest) ->
           let q = (match find_field "q" rest with Some [S q] -> q | _ -> "?") in
           let ctx = Printf.sprintf " run=%s q=%s" (quote_string label) (quote_string (clip 600 q)) in
-          let shape = (match find_field "shape" rest with Some [s] -> Some (gsel_of s) | _ -> None) in
+          let shape_sx = (match find_field "shape" rest with Some [s] -> Some s | _ -> None) in
+          let shape = (match shape_sx with Some s -> Some (gsel_of s) | None -> None) in
           let info = { label; q; shape; data = None } in
           (match find_field "invalid" rest with
            | Some [S m] -> add "error" ("generator produced an invalid operation: " ^ clip 300 m ^ ctx); info
@@ -209,7 +267,10 @@ let handle (x : sexp) : (string * string) list =
               | None ->
                 (match jdata j, shape with
                  | Some d, Some sh ->
-                   if not (conf_b sh d) then add "specfail" (Printf.sprintf "shape/mismatch out=%s%s" (clip 900 (show_json d)) ctx);
+                   if not (conf_b sh d) then
+                     add "specfail" (Printf.sprintf "shape/mismatch at=%s out=%s%s"
+                                       (match shape_sx with Some s -> (match diagnose "$" s d with Some x -> x | None -> "? why=?") | None -> "?")
+                                       (clip 900 (show_json d)) ctx);
                    { info with data = Some d }
                  | None, _ -> add "specfail" ("shape/no-data" ^ ctx); info
                  | _, None -> add "error" ("no shape" ^ ctx); info))
